@@ -455,6 +455,26 @@ func runC13(ctx *Ctx) error {
 				fails, reads = nil, nil
 			}
 		}
+		if len(fails) > 0 && drops > 0 && !sc.burst {
+			// the library logged dropped frames. The known finding (non-blocking Enqueue) loses
+			// frames only on unlucky schedules outside the burst witness: a scenario that fails
+			// EVERY time is something else (e.g. a stalled demux, which also makes the queue
+			// above it overflow) and is reported under its own site
+			always := true
+			for k := 0; k < 2 && always; k++ {
+				f2, _ := sc.run(NewRng(ctx.Seed + int64(i)*977 + int64(k)))
+				dl.take()
+				if len(f2) == 0 {
+					always = false
+				}
+			}
+			if !always {
+				res.Count("enqueue-drop-on-an-unlucky-schedule")
+				fails, reads = nil, nil
+			} else {
+				drops = 0
+			}
+		}
 		for _, f := range fails {
 			site := f.Site
 			if drops > 0 && (f.Site == "read-stream" || f.Site == "scenario-timeout") {
